@@ -134,6 +134,19 @@ func holdOp(rng *rand.Rand, o *Op, until []string) {
 	o.Hold = &Hold{At: requestHoldPoints[rng.Intn(len(requestHoldPoints))], For: until[rng.Intn(len(until))], N: 1 + rng.Intn(2), Max: time.Duration(500+rng.Intn(2500)) * time.Millisecond}
 }
 
+// lockHoldOp (second build only) moves a third of the holds in front of one of the lock
+// acquisitions of the request path, whichever the code has there: the request is descheduled
+// between two critical sections that no hand-placed hook separates. Used by the worlds whose
+// oracles make no assumption about where a held request sits (C02, C03, C18); in the C07 and
+// C17 worlds the timing clauses know the named points only (DESIGN §6, wave 6).
+func lockHoldOp(rng *rand.Rand, o *Op) {
+	if !AutoYield || o.Hold == nil || rng.Intn(3) != 0 {
+		return
+	}
+	o.Hold.At = pick(rng, "lock@target.go:*", "lock@load_balancer.go:*", "lock@service.go:*", "lock@pause_controller.go:*", "lock@router.go:*")
+	o.Hold.Skip = rng.Intn(3)
+}
+
 // addCensus appends an actor that waits until every command of the scenario
 // has returned, lets three probe intervals pass, records what is installed
 // (census) and then watches two more intervals. Oracle: checkOrphanProbes.
